@@ -1,14 +1,24 @@
 #!/bin/bash
-# usage: tools/seed_confirm.sh <patch.diff> <logfile>
-# In a scratch worktree: apply the seeded change, run the repository's whole suite with the guard off,
-# compare with the baseline; append the verdict to <logfile>.  Uses one shared scratch target dir
-# (/tmp/seed-target) so that successive confirmations compile incrementally; remove it when done.
-PATCH=$(realpath "$1"); LOG="$2"
+# usage: tools/seed_confirm.sh <seeded/ID dir> <logfile>
+# In a scratch worktree of /repo HEAD: apply the seeded change, run the repository's whole suite with
+# the guard off and compare with the baseline; build the release-like binary and run the seed's
+# demo.py with it (must exit non-zero) and with the unchanged binary (must exit 0).
+# One shared scratch target dir (/tmp/seed-target) keeps successive confirmations incremental.
+D=$(realpath "$1"); LOG="$2"; ID=$(basename "$D")
 WT=/tmp/seedc-wt-$$
 git -C /repo worktree add -q "$WT" HEAD || exit 2
-if ! git -C "$WT" apply "$PATCH"; then echo "$PATCH PATCH-DOES-NOT-APPLY" >> "$LOG"; git -C /repo worktree remove --force "$WT"; exit 2; fi
+if ! git -C "$WT" apply "$D/patch.diff"; then echo "$ID PATCH-DOES-NOT-APPLY" >> "$LOG"; git -C /repo worktree remove --force "$WT"; exit 2; fi
 ( cd "$WT" && CARGO_TARGET_DIR=/tmp/seed-target timeout 3000 cargo nextest run --workspace --no-fail-fast --tool-config-file pb:/w/lib/nextest.toml --profile pb --test-threads 8 --offline > "$WT/nextest.log" 2>&1 )
 J="$WT/target/nextest/pb/junit.xml"; [ -f "$J" ] || J=/tmp/seed-target/nextest/pb/junit.xml
 RES=$(python3 /verif/tools/baseline_compare.py "$J" 2>&1 | head -1)
-echo "$PATCH suite: $RES" >> "$LOG"
+DEMO="no-demo.py"
+if [ -f "$D/demo.py" ]; then
+  ( cd "$WT" && CARGO_TARGET_DIR=/tmp/seed-target cargo build --offline --quiet --bin s4 --profile verif --config 'profile.verif.inherits="release"' --config 'profile.verif.lto=false' --config 'profile.verif.codegen-units=16' --config 'profile.verif.strip=false' > "$WT/build.log" 2>&1 )
+  cp /tmp/seed-target/verif/s4 "$WT/s4-mut"
+  [ -f "$D/../$(echo $ID | cut -d- -f1)-m1/demo_common.py" ] && cp "$D/../$(echo $ID | cut -d- -f1)-m1/demo_common.py" "$D/" 2>/dev/null
+  ( cd "$D" && timeout 1200 python3 demo.py "$WT/s4-mut" /repo > "$WT/demo-mut.log" 2>&1 ); RM=$?
+  ( cd "$D" && timeout 1200 python3 demo.py /verif/.cache/target-s4/verif/s4 /repo > "$WT/demo-orig.log" 2>&1 ); RO=$?
+  DEMO="demo(with change)=exit$RM demo(without)=exit$RO"
+fi
+echo "$ID suite: $RES | $DEMO" >> "$LOG"
 git -C /repo worktree remove --force "$WT"; rm -rf "$WT"
